@@ -5,6 +5,7 @@ import (
 	"math"
 	"strconv"
 	"strings"
+	"time"
 
 	"github.com/pip-services3-gox/pip-services3-expressions-gox/variants"
 
@@ -408,6 +409,16 @@ func c06Expect(mgrName string, mgr variants.IVariantOperations, op string, a, b 
 			} else {
 				bc, ok = vLong(exact), true
 			}
+		}
+	}
+	if b.T == "S" && mgrName == "unsafe" {
+		// texts with an unambiguous meaning in the host language denote that value, whatever route the manager takes:
+		// a duration literal (time.ParseDuration) for a TimeSpan, a decimal number for a Float (the double it spells, rounded to single)
+		if d, err := time.ParseDuration(b.V); err == nil && a.T == "P" {
+			bc, ok = vSpan(d), true
+		}
+		if f, err := strconv.ParseFloat(b.V, 64); err == nil && a.T == "F" && reFloatLit.MatchString(b.V) {
+			bc, ok = vFloat(float32(f)), true
 		}
 	}
 	if !ok {
